@@ -15,8 +15,8 @@ use uuid::Uuid;
 
 use crate::error::MapRedisError;
 use crate::parser::{
-    FrameStream, data, event_id, expected_version, keyword, number_u64, partition_key, stream_id,
-    string,
+    FrameStream, data, event_id, event_name, expected_version, keyword, number_u64, partition_key,
+    stream_id,
 };
 use crate::request::{HandleRequest, array, map, number, simple_str};
 use crate::server::Conn;
@@ -70,7 +70,7 @@ impl Event {
     fn parser<'a>() -> impl Parser<FrameStream<'a>, Output = Event> + 'a {
         (
             stream_id(),
-            string().expected("event name"),
+            event_name(),
             many::<Vec<_>, _, _>(OptionalArg::parser()),
         )
             .and_then(|(stream_id, event_name, args)| {
